@@ -33,7 +33,7 @@ deriving Repr, DecidableEq
 def roundUp (a b : Nat) : Nat := ((a + b - 1) / b) * b
 
 /-- A live range as the allocators see it. `name` is the rank of `LiveRange.name` among the
-    names (only used to break ties the way `LiveRange.__lt__` does), `id` the position in
+    names (only used where `LiveRange.__lt__` is: equal addresses in `sorted(current_allocs)`), `id` the position in
     `live_ranges.lrs`. -/
 structure LR where
   start : Nat
@@ -63,13 +63,13 @@ def lrLt (a b : LR) : Bool :=
   else if a.size != b.size then decide (a.size < b.size)
   else decide (a.name < b.name)
 
-/-- order of `sorted({(lr.start_time, -lr.end_time, lr)})` as a total preorder (ties between
-    distinct objects with equal names are left in input order) -/
+/-- order of `sorted((lr.start_time, -lr.end_time, idx, lr) for idx, lr in enumerate(lrs))`: the
+    creation index `idx` (= `id`, the position in `live_ranges.lrs`) breaks every tie, so the
+    live ranges themselves are never compared -/
 def greedyLe (a b : LR) : Bool :=
   if a.start != b.start then decide (a.start < b.start)
   else if a.end_ != b.end_ then decide (b.end_ < a.end_)
-  else if a.size != b.size then decide (a.size < b.size)
-  else decide (a.name ≤ b.name)
+  else decide (a.id ≤ b.id)
 
 /-- `(start_addr, lr) < (start_addr', lr')` for Python tuples -/
 def allocLt (x y : Nat × LR) : Bool := decide (x.1 < y.1) || (x.1 == y.1 && lrLt x.2 y.2)
